@@ -57,7 +57,7 @@ def run_thorough(ctx, repo_root):
     # behaviour-preserving whole-tree transformations: the property's check must stay silent on each of them
     import benign_global
     res = benign_global.run_for_prop(ctx.prop, repo_root)
-    R.rule("AUDIT behaviour-preserving transformations", 6, "formatting, temporaries, renamed locals, negated branches, reordered methods and their composition leave the check silent")
+    R.rule("AUDIT behaviour-preserving transformations", 7, "formatting, temporaries, renamed locals, negated branches, reordered methods and their composition leave the check silent")
     R.extra_cov["transformations_run"] = [n for n, _, _ in res]
     noisy = [(n, rc, first) for n, rc, first in res if rc != 0]
     for n, rc, first in res:
